@@ -21,6 +21,7 @@ theorem step_frozen_config (σ : Sig F) {a b : MState F V} (h : FrozenEq σ a b)
       exact ⟨fun f hf => by by_cases hfg : f = g <;> simp [hfg, h.val f hf], h.training⟩
     · simp only [hs]; exact h
   | mode b => exact ⟨h.val, rfl⟩
+  | observe => simp [Op.isConfig] at hc
 
 theorem step_frozen_train (σ : Sig F) {a b : MState F V} (h : FrozenEq σ a b) (op : Op F V)
     (hc : op.isConfig = false) : FrozenEq σ (step σ a op) b := by
@@ -30,6 +31,7 @@ theorem step_frozen_train (σ : Sig F) {a b : MState F V} (h : FrozenEq σ a b) 
     simp [step, hf, h.val f hf]
   | setOpt g v => simp [Op.isConfig] at hc
   | mode b => simp [Op.isConfig] at hc
+  | observe => exact ⟨h.val, h.training⟩
 
 /-- configuration and constructor constants after a history = after its configuration calls alone -/
 theorem run_frozen (σ : Sig F) (ops : List (Op F V)) :
@@ -53,6 +55,7 @@ theorem step_present (σ : Sig F) (hl : NoLate σ) (s : MState F V) (op : Op F V
   | train u => simp [step, hl f hp]
   | setOpt g v => simp only [step]; split <;> rfl
   | mode b => rfl
+  | observe => simp [step, hl f hp]
 
 /-- without late registrations the key set never changes -/
 theorem run_present (σ : Sig F) (hl : NoLate σ) (ops : List (Op F V)) :
@@ -125,6 +128,21 @@ theorem load_persisted (σ : Sig F) (s r : MState F V) (f : F) (hk : (σ.kind f)
 theorem load_other (σ : Sig F) (sd : F → Option V) (r : MState F V) (f : F)
     (hk : (σ.kind f).persisted = false) : (load σ sd r).val f = r.val f := by
   simp [load, isKey, hk]
+
+/-- observer calls on a freshly built wrapper leave it "built with the same constructor arguments" -/
+theorem sameCtor_observed (σ : Sig F) (hl : NoLate σ) {a b : MState F V} (h : SameCtor σ a b)
+    (pre : List (Op F V)) (hpre : ∀ op ∈ pre, op.isObserve = true) : SameCtor σ a (run σ b pre) := by
+  induction pre generalizing b with
+  | nil => exact h
+  | cons op pre ih =>
+    have ho := hpre op List.mem_cons_self
+    cases op with
+    | observe =>
+      apply ih _ (fun o hm => hpre o (List.mem_cons_of_mem _ hm))
+      exact ⟨h.frozen, h.training, fun f hp => by simp [step, hl f hp, h.present f hp]⟩
+    | train u => simp [Op.isObserve] at ho
+    | setOpt g v => simp [Op.isObserve] at ho
+    | mode m => simp [Op.isObserve] at ho
 
 theorem frozen_not_persisted {k : FClass} (h : k.frozen = true) : k.persisted = false := by
   cases k <;> simp_all [FClass.frozen, FClass.persisted]
